@@ -50,6 +50,9 @@ concrete input unless noted; see report):
   M12 bzr/branch.get_rev_id: `revno > last_revno` -> `revno >= last_revno`
   M13 branch 'with-merges-without-common-ancestry': mainline revisions never filtered
   H1 harmless: _gen_revno_map dict comprehension replaced by a loop -> clean
+  S1 (seeded by the coordinator) branch.dotted_revno_to_revision_id: reverse-cache entry written after the internal
+     read lock is released -> stale dotted revno on a long-lived Branch object; caught by the sequence stream
+     (specifiers resolved without an outer lock, tip moved through another object, all conversions re-checked)
 """
 import random
 
@@ -63,7 +66,9 @@ THEOREMS = [
     "spec_neg", "spec_last", "spec_revid", "spec_tag", "spec_before", "spec_before_null",
     "spec_mainline", "spec_ancestor", "iter_sublist", "iter_exclude_include",
 ]
-RULE = ("case = (history DAG, branch tip, tags, other branches, one query); queries are enumerated per history "
+RULE = ("case = (history DAG, branch tip, tags, other branches, one query) or one answer of a long-lived branch object "
+        "inside a sequence (specifiers resolved with / without an outer lock, the tip moved through another object, then all "
+        "number <-> id conversions); queries are enumerated per history "
         "(all revnos, all dotted revnos, all revids, all tags, nested before:/mainline:, sampled (start, stop, rule, "
         "direction) combinations); non-trivial = the tip's ancestry contains a merged (depth > 0) revision and the "
         "query does not end in an error; distinct by canonical (graph, tip, query)")
@@ -780,9 +785,123 @@ def run_world(args):
                 out.append((q, s, fails))
         finally:
             b.unlock()
+        steps = gen_sequence(w, rng)
+        seq = run_sequence(world, w, steps)
     finally:
         world.close()
-    return dict(w=w, merged=any(x.merge_depth > 0 for x in ms), results=out)
+    return dict(w=w, merged=any(x.merge_depth > 0 for x in ms), results=out, steps=steps, seq=seq)
+
+
+# --------------------------------------------------------------------------
+# stateful stream: one long-lived Branch object X, the tip moved through another object Y
+
+def gen_sequence(w, rng):
+    """steps: ["resolve", spec, locked] on X | ["move", tip] through Y | ["check"] on X"""
+    g = world_graph(w)
+    n = len(g)
+    from vcsgraph.known_graph import KnownGraph
+    kg = KnownGraph({k: tuple(v) for k, v in g.items()})
+    tip = w["tip"]
+    steps = []
+    for _ in range(rng.choice([2, 3])):
+        if tip is not None:
+            dotted = [".".join(map(str, x.revno)) for x in kg.merge_sort(tip)]
+        else:
+            dotted = []
+        specs = [rng.choice(dotted) for _ in range(min(len(dotted), 4))]
+        specs = [("revno:" + d) if rng.random() < 0.3 else d for d in specs]
+        specs += ["revid:r%d" % rng.randrange(n), "-1", "last:1"]
+        rng.shuffle(specs)
+        for sp in specs:
+            steps.append(["resolve", sp, rng.random() < 0.35])
+        # the last resolution before the move: a dotted number off the mainline, no outer lock
+        off = [d for d in dotted if "." in d]
+        if off:
+            steps.append(["resolve", rng.choice(off), False])
+        tip = rng.randrange(n) if rng.random() < 0.9 else None
+        steps.append(["move", tip])
+        steps.append(["check"])
+    return steps
+
+
+def run_sequence(world, w, steps):
+    """-> list of (tip at that moment, query, impl string, oracle failures)"""
+    from breezy.branch import Branch
+    from breezy.revisionspec import RevisionSpec
+    from vcsgraph.known_graph import KnownGraph
+    g = world_graph(w)
+    gi = GI(g)
+    kg = KnownGraph({k: tuple(v) for k, v in g.items()})
+    n = len(g)
+    X = world.open()
+    tip = w["tip"]
+    out = []
+    prev_dotted = set()
+    for st in steps:
+        if st[0] == "resolve":
+            text = st[1]
+            try:
+                if st[2]:
+                    with X.lock_read():
+                        RevisionSpec.from_string(text).as_revision_id(X)
+                        RevisionSpec.from_string(text).in_history(X)
+                else:
+                    RevisionSpec.from_string(text).as_revision_id(X)
+            except Exception:
+                pass
+        elif st[0] == "move":
+            if tip is not None:
+                prev_dotted |= {tuple(x.revno) for x in kg.merge_sort(tip)}
+            tip = st[1]
+            Y = Branch.open(world.url + "main")
+            Y.generate_revision_history(NULL if tip is None else name(g, tip))
+        elif st[0] == "check":
+            ms = list(kg.merge_sort(tip)) if tip is not None else []
+            numbering = {x.key: tuple(x.revno) for x in ms}
+            lh = gi.lefthand(tip) if tip is not None else []
+            fresh = Branch.open(world.url + "main")
+            with fresh.lock_read():
+                fresh_map = dict(fresh.get_revision_id_to_revno_map())
+            qs = [("id2d", name(g, i).decode()) for i in range(n)] + [("id2d", "zzz")]
+            qs += [("id2revno", name(g, i).decode()) for i in range(n)]
+            qs += [("d2id", ".".join(map(str, d))) for d in sorted(set(numbering.values()) | prev_dotted) if len(d) > 1]
+            qs += [("getrevid", k) for k in range(0, len(lh) + 2)]
+            with X.lock_read():
+                for q in qs:
+                    s_, res = run_query(world, X, q)
+                    fails = []
+                    isexc = isinstance(res, Exception)
+                    if q[0] == "id2d":
+                        rid = q[1].encode()
+                        exp = next((d for r, d in numbering.items() if name(g, r) == rid), None)
+                        if exp is None and not isexc:
+                            fails.append("a long-lived branch object answers revision_id_to_dotted_revno(%r) = %r although the "
+                                         "revision is not in the ancestry of the current tip" % (rid, res))
+                        elif exp is not None and (isexc or res != exp):
+                            fails.append("a long-lived branch object answers revision_id_to_dotted_revno(%r) = %r, the current "
+                                         "numbering (and a freshly opened branch: %r) gives %r" % (rid, res, fresh_map.get(rid), exp))
+                    elif q[0] == "d2id":
+                        d = tuple(int(x) for x in q[1].split("."))
+                        hits = [r for r, dd in numbering.items() if dd == d]
+                        if hits and (isexc or res != name(g, hits[0])):
+                            fails.append("a long-lived branch object answers dotted_revno_to_revision_id(%r) = %r, expected %r"
+                                         % (d, res, name(g, hits[0])))
+                        elif not hits and not isexc:
+                            fails.append("a long-lived branch object answers dotted_revno_to_revision_id(%r) = %r although no "
+                                         "revision has that number now" % (d, res))
+                    elif q[0] == "getrevid":
+                        k = q[1]
+                        exp = NULL if k == 0 else name(g, lh[k - 1]) if 1 <= k <= len(lh) else None
+                        if (exp is None) != isexc or (exp is not None and res != exp):
+                            fails.append("a long-lived branch object answers get_rev_id(%d) = %r, expected %r" % (k, res, exp))
+                    elif q[0] == "id2revno":
+                        names = [name(g, x) for x in lh]
+                        rid = q[1].encode()
+                        exp = names.index(rid) + 1 if rid in names else None
+                        if (exp is None) != isexc or (exp is not None and res != exp):
+                            fails.append("a long-lived branch object answers revision_id_to_revno(%r) = %r, expected %r" % (rid, res, exp))
+                    out.append((tip, q, s_, fails))
+    return out
 
 
 def check_plugins(ctx):
@@ -846,6 +965,21 @@ def _consume(ctx, r):
     return cases, lines, impls
 
 
+def _consume_seq(ctx, w, steps, seq, merged):
+    cases, lines, impls = [], [], []
+    case = dict(g=w["g"], tip=w["tip"], tags=w["tags"], others=w["others"], q=["seq", steps])
+    ctx.count("sequences")
+    for tip, q, s_, fails in seq:
+        for f in fails:
+            ctx.violation(case, f + "; sequence: %r" % (steps,), family=None)
+        ctx.case(dict(g=w["g"], tip=tip, seq=steps, q=list(q)), nontrivial=merged and not s_.startswith("E:"))
+        ctx.count("seq-q:" + q[0])
+        cases.append(dict(case, at_tip=tip, check=list(q)))
+        lines.append(model_line(dict(w, tip=tip), q))
+        impls.append(s_)
+    return cases, lines, impls
+
+
 def run_corpus(ctx):
     """inputs that needed care while the check was built (corpus/C22/*.json), run first"""
     import glob
@@ -878,6 +1012,8 @@ def run(ctx, nworlds=None):
         ctx.count("world-merged" if r["merged"] else "world-linear")
         c, l, i = _consume(ctx, r)
         cases += c; lines += l; impls += i
+        c, l, i = _consume_seq(ctx, r["w"], r["steps"], r["seq"], r["merged"])
+        cases += c; lines += l; impls += i
     outs = ctx.model(lines)
     for c, l, i, m in zip(cases, lines, impls, outs):
         if "E:Unsupported" in m:
@@ -901,6 +1037,21 @@ def replay(ctx, case):
         m = ctx.model(["ms %s %d" % (enc_graph(g), case["tip"])])[0]
         return dict(impl=impl, model=m, agree=impl == m)
     w = dict(g=case["g"], tip=case["tip"], tags=case["tags"], others=case["others"], qseed=0)
+    if case["q"][0] == "seq":
+        steps = case["q"][1]
+        world = World(w)
+        try:
+            seq = run_sequence(world, w, steps)
+        finally:
+            world.close()
+        lines = [model_line(dict(w, tip=t), q) for t, q, s_, f in seq]
+        outs = ctx.model(lines) if lines else []
+        diffs = [dict(at_tip=t, check=list(q), impl=s_, model=m) for (t, q, s_, f), m in zip(seq, outs) if s_ != m]
+        fails = [x for t, q, s_, f in seq for x in f]
+        for f in fails:
+            ctx.violation(case, f + "; sequence: %r" % (steps,))
+        return dict(query=["seq", steps], impl="%d answers" % len(seq), model="%d differ" % len(diffs),
+                    agree=not diffs, differences=diffs[:5], oracle_failures=fails[:8])
     q = case["q"]
     q = tuple(q[:2]) + tuple(_detuple(x) for x in q[2:])
     g = world_graph(w)
